@@ -79,7 +79,8 @@ def extract(config='default', repo=None, target_dir=None, out=None):
     """Run the driver over `repo` (default /repo). Returns (facts, info)."""
     repo = repo or REPO
     os.makedirs(CACHE, exist_ok=True)
-    lock = open(os.path.join(CACHE, 'lock-' + config), 'w')
+    lockname = 'lock-' + config if target_dir is None else 'lock-' + hashlib.sha256(target_dir.encode()).hexdigest()[:12]
+    lock = open(os.path.join(CACHE, lockname), 'w')
     fcntl.flock(lock, fcntl.LOCK_EX)
     try:
         ensure_driver()
